@@ -314,6 +314,8 @@ class LoopGen:
                 z = self.fresh('w')
                 body.append(Node('assign', PV(z), self.comp_expr(sc, lists, 'R')))
                 body.append(Node('assign', PV(s), Node('op2', 'add', V(s), Node('sum', V(z)))))
+        body = self.gensym_trap(body, acc, s)
+        acc, s = self.renamed.get(acc, acc), self.renamed.get(s, s)
         items = [V(acc), V(s)]
         if r.random() < 0.7:
             items.append(V('xs'))
@@ -321,6 +323,45 @@ class LoopGen:
             items.append(V('ys'))
         body.append(Node('return', Node('tuple', items)))
         return Program([Func('main', ['xs', 'ys', 'kf', 'a0'], self.ctx, body)])
+
+    def gensym_trap(self, body, acc, s):
+        """Rename two user variables to `base` and `base<N>`, N about the number of names of the function: the
+        first name Gensym tries after `base` (utils/gensym.py starts its counter at the size of the reserved set)."""
+        r = self.r
+        self.renamed = {}
+        if r.random() > 0.12:
+            return body
+        names = []
+
+        def collect(n):
+            if n.k in ('var', 'pvar'):
+                names.append(n.a[0])
+            elif n.k == 'iassign':
+                names.append(n.a[0])
+        from .lang import walk
+        walk(body, collect)
+        distinct = sorted(set(names) | {'xs', 'ys', 'kf', 'a0'})
+        base = r.choice({'while': ['t'], 'for': ['t', 'i', 'n', 't', 'j'], 'iter': ['_src', '_i'], 'fuse': ['acc', 'b']}[self.family])
+        n = len(distinct) + r.choice([0, 0, 0, -1, 1])
+        trap = f'{base}{n}'
+        if base in distinct or trap in distinct:
+            return body
+        self.renamed = {acc: base, s: trap}
+        self.features.add('gensym-trap')
+
+        def ren(x):
+            if isinstance(x, Node):
+                if x.k in ('var', 'pvar'):
+                    return Node(x.k, self.renamed.get(x.a[0], x.a[0]))
+                if x.k == 'iassign':
+                    return Node('iassign', self.renamed.get(x.a[0], x.a[0]), ren(x.a[1]), ren(x.a[2]))
+                return Node(x.k, *[ren(y) for y in x.a])
+            if isinstance(x, list):
+                return [ren(y) for y in x]
+            if isinstance(x, tuple):
+                return tuple(ren(y) for y in x)
+            return x
+        return ren(body)
 
     def fuse_stmts(self, sc, lists):
         r = self.r
